@@ -354,3 +354,73 @@ crate::harnesses! { REG;
     #[unwind(12)]
     fn c03_te_batch_complete() { te_batch::<TeC, 0>(false); te_batch::<TeC, 1>(false); te_batch::<TeC, 2>(false) }
 }
+
+// ---- a short-Weierstrass curve with a = 0 over a CUBIC extension base field (F_7^3): doubling takes the slow path that is
+// ---- only used for base fields of extension degree >= 3 --------------------------------------------------------------------
+pub mod ext3 {
+    use crate::c02_towers::{Conv, O7_3, OF, OP};
+    use crate::fields::DF19;
+    use crate::sym::{any, assume};
+    use crate::towers::F7_3;
+    use ark_ec::{models::CurveConfig, short_weierstrass::{self as sw, SWCurveConfig}, AffineRepr, CurveGroup};
+    use ark_ff::{AdditiveGroup, BigInt, Fp, Fp3, Zero};
+    use core::marker::PhantomData;
+
+    /// y^2 = x^3 + u over F_343 = F_7[u]/(u^3 - 2).  Only the curve equation matters for the harness (group order / generator are
+    /// not used: the scalar field and cofactor are placeholders, no scalar multiplication is performed).
+    #[derive(Clone, Copy, Default, PartialEq, Eq, Debug)]
+    pub struct SwExt3;
+    const fn f(v: u64) -> crate::plain::PF7 {
+        Fp(BigInt([v]), PhantomData)
+    }
+    impl CurveConfig for SwExt3 {
+        type BaseField = F7_3;
+        type ScalarField = DF19;
+        const COFACTOR: &'static [u64] = &[1];
+        const COFACTOR_INV: DF19 = <DF19>::new(BigInt::new([1]));
+    }
+    impl SWCurveConfig for SwExt3 {
+        const COEFF_A: F7_3 = Fp3::<crate::towers::T7Fp3>::new(f(0), f(0), f(0));
+        const COEFF_B: F7_3 = Fp3::<crate::towers::T7Fp3>::new(f(0), f(1), f(0));
+        // (placeholder, never used by the harness)
+        const GENERATOR: sw::Affine<Self> = sw::Affine::new_unchecked(Fp3::<crate::towers::T7Fp3>::new(f(0), f(0), f(0)), Fp3::<crate::towers::T7Fp3>::new(f(0), f(0), f(0)));
+    }
+    fn b_coeff() -> O7_3 {
+        crate::c02_towers::OE([OP(0), OP(1), OP(0)], PhantomData)
+    }
+    /// doubling and P + P of ALL affine points (x, y) with y != 0 on the curve, with ALL Jacobian rescalings by a base-prime-field
+    /// scalar z: compared with the textbook tangent formula in the oracle tower (lambda = 3x^2 / 2y; inverse by Fermat)
+    pub fn double_all() {
+        let (x, y) = (O7_3::any(), O7_3::any());
+        let on_curve = y.mul(y) == x.mul(x).mul(x).add(b_coeff());
+        assume(on_curve && !y.is_zero());
+        let z: u32 = any();
+        let z = z & 7;
+        assume(z >= 1 && z < 7);
+        let zo: O7_3 = crate::c02_towers::OE([OP(z), OP(0), OP(0)], PhantomData);
+        let z2 = zo.mul(zo);
+        let p = sw::Projective::<SwExt3>::new_unchecked(F7_3::from_o(&x.mul(z2)), F7_3::from_o(&y.mul(z2).mul(zo)), F7_3::from_o(&zo));
+        let three = crate::c02_towers::OE([OP(3), OP(0), OP(0)], PhantomData);
+        let two = crate::c02_towers::OE([OP(2), OP(0), OP(0)], PhantomData);
+        let lam = three.mul(x).mul(x).mul(two.mul(y).pow(341));
+        let x3 = lam.mul(lam).sub(x).sub(x);
+        let y3 = lam.mul(x.sub(x3)).sub(y);
+        let d = p.double();
+        let s = p + p;
+        crate::cover!(z > 1 && !x.is_zero());
+        // Jacobian (X, Y, Z) denotes (X/Z^2, Y/Z^3)
+        let is = |r: &sw::Projective<SwExt3>| {
+            let (rx, ry, rz) = (r.x.to_o(), r.y.to_o(), r.z.to_o());
+            let rz2 = rz.mul(rz);
+            !rz.is_zero() && rx == x3.mul(rz2) && ry == y3.mul(rz2).mul(rz)
+        };
+        let ok = is(&d) && is(&s);
+        assert!(ok);
+    }
+}
+
+crate::harnesses! { REGEXT;
+    /// thorough required timeout=3000 mem=30 | SW y^2 = x^3 + u over the CUBIC extension F_7^3 (a = 0: the doubling slow path used only for base fields of extension degree >= 3): double() and P + P for ALL affine points with y != 0 and ALL rescalings vs the textbook tangent formula in an independent oracle tower
+    #[unwind(12)]
+    fn c03_sw_double_ext3() { ext3::double_all() }
+}
